@@ -1,7 +1,7 @@
 CONSTANTS
   Modes = {"sp", "cm"}
-  MaxW = 2
-  MaxT = 6
+  MaxW = 3
+  MaxT = 7
   MaxC = 1
   Dups = TRUE
   MaxEdits = 2
@@ -9,6 +9,7 @@ CONSTANTS
   Emit = FALSE
   SliceK = 1
   SliceR = 0
+  InnerAlways = FALSE
   RemoveNodeOnly = FALSE
   LeakComments = FALSE
   NoContinuation = FALSE
